@@ -41,6 +41,18 @@ CLAIMED = {
   "Seeded exploration: the real ResilientSink + CircuitBreaker + DeadLetterQueue (real file) with 1-3 concurrent sender tasks polled by a manual executor; the tape decides which sender starts, which in-flight downstream call completes and how (ok/error/partial batch), and virtual time advances incl. exactly reset_timeout±1ns. Oracles: conservation (every handed event delivered or in a parseable DLQ line naming sink and error) and a reference breaker automaton (opens at exactly threshold, rejects until timeout, one probe while half-open, closes/reopens on the probe result).",
   "Downstream sink is a mock; DLQ write errors not injected (outside the quantifier); where the contract is silent (pre-open in-flight call completing during half-open, exactly == reset_timeout) the run is counted as not judged.",
   "deterministic simulation: manual executor + virtual clock + downstream fault injection, reference-automaton and conservation oracles"),
+"C21": ("w2-store", "DESIGN.md §4 C21",
+  "Seeded exploration plus per-history fault-point sweeps: real CheckpointManager + FileStore on a real directory; histories of saves, restarts, stray temp files and corruption of the newest file; crash, torn write (the file really written is cut to a prefix) and I/O error injected at tape-chosen H2 fault points inside FileStore::put/delete; the sweep batch re-executes each history once per fault point. After each restart recover() is compared with the ground truth read from the directory (newest complete checkpoint, never a partial one, fallback past an unreadable newest file, at most max_checkpoints after each completed save, ids increasing across restarts).",
+  "Process-crash model (completed syscalls survive); power loss not modelled because FileStore never fsyncs. Ground truth uses the repo's codec::deserialize. A damaged file that still deserialises (format has no checksum) is not judged.",
+  "deterministic simulation with crash/torn-write/IO-error injection at file-system fault points, per-history crash-point sweep, ground-truth oracle"),
+"C22": ("w2-store", "DESIGN.md §4 C22",
+  "Seeded exploration plus per-history crash-point sweeps: histories of up to 8 create/delete-tenant and deploy/delete/reload-pipeline requests through the real warp handlers on a FileStore-backed TenantManager, 1-3 crashes at tape-chosen fault points inside FileStore (sweep batch: every fault point); after each crash a fresh TenantManager recovers from the directory and must equal the model of acknowledged state, the single in-flight operation being allowed absent or present.",
+  "HTTP socket layer bypassed (warp::test); store write errors without a crash are outside the quantifier; process-crash model.",
+  "deterministic simulation with crash injection inside the store, reference model of acknowledged state"),
+"C28": ("w2-store", "DESIGN.md §4 C28",
+  "Seeded exploration of request histories over 2-3 tenants mixing every pipeline endpoint with own, foreign and unknown keys and pipeline ids, interleaved with management operations and crash+recovery (so foreign requests also hit a freshly rebuilt key index). Invariant after every request: every tenant other than the caller is bit-identical (pipelines, sources, statuses, usage counters, engine checkpoints); foreign requests are refused; responses never contain another tenant's ids or key.",
+  "Observable state is read directly from the TenantManager; HTTP socket layer bypassed.",
+  "deterministic simulation: request histories with crash/recovery, isolation invariant evaluated around every request"),
 }
 def main():
     hooks = [l.split()[0] for l in subprocess.run(["git","-C","/repo","log","--format=%h %s"],capture_output=True,text=True).stdout.splitlines() if " verif-hook:" in " "+l]
